@@ -10,21 +10,26 @@
      del p rc nc n        = MasterDel; n = size of the refill loop it started (0: none)
      reset                = a new recorded run starts
    The worker side (accept / done / pipe contents) is not logged; the update action takes the report
-   from the log instead of the head of the pipe.  Bound and the bookkeeping invariants are evaluated
+   from the log instead of the head of the pipe.  The RECEIVE of a registration is not logged either (the
+   master logs `add` after processing it; the spawn loop, released by the rendezvous, may log its next
+   `started` before that): `started` and `add` are therefore each allowed to be preceded by the silent
+   receive step (RecvThenStart / RecvThenAdd).  Bound and the bookkeeping invariants are evaluated
    after EVERY event. *)
 EXTENDS ZnPrefork, TLCExt
 Tr == ndJsonDeserialize("trace.ndjson")
 VARIABLE l
-tvars == <<live, childs, refCount, loops, pipe, waits, armed, wst, nextPid, reqs, faults, l>>
+tvars == <<live, childs, refCount, loops, pipe, waits, armed, wst, nextPid, reqs, faults, got, l>>
 TraceInit == Init /\ l = 1
 NewLoopSize == IF Len(loops') > Len(loops) THEN loops'[Len(loops')].left ELSE 0
 Bind(e) == refCount' = e.rc /\ Cardinality(DOMAIN childs') = e.nc
-TStarted(e) == /\ nextPid = e.pid /\ \E s \in 1..Len(loops) : SpawnStart(s)
+TStarted(e) == /\ nextPid = e.pid /\ \E s \in 1..Len(loops) : SpawnStart(s) \/ RecvThenStart(s)
 TExited(e) == /\ e.pid \in live /\ Exit(e.pid)
-              /\ UNCHANGED <<childs, refCount, loops, pipe, armed, wst, nextPid, reqs, faults>>
-TAdd(e) == /\ \E s \in 1..Len(loops) : loops[s].pending = e.pid /\ MasterAdd(s)
+              /\ UNCHANGED <<childs, refCount, loops, pipe, armed, wst, nextPid, reqs, faults, got>>
+TAdd(e) == /\ \/ (got = e.pid /\ MasterAdd)
+              \/ (\E s \in 1..Len(loops) : loops[s].pending = e.pid /\ RecvThenAdd(s))
            /\ Bind(e)
 TUpdate(e) ==
+  /\ got = 0
   /\ LET c2 == IF e.pid \in Registered THEN [childs EXCEPT ![e.pid] = e.st] ELSE childs
      IN /\ childs' = c2
         /\ IF HasIdle(c2) THEN UNCHANGED <<refCount, loops>>
@@ -32,11 +37,11 @@ TUpdate(e) ==
                     add == final - refCount
                 IN /\ refCount' = final
                    /\ loops' = IF add > 0 THEN Append(loops, Loop(add)) ELSE loops
-  /\ UNCHANGED <<live, pipe, waits, armed, wst, nextPid, reqs, faults>>
+  /\ UNCHANGED <<live, pipe, waits, armed, wst, nextPid, reqs, faults, got>>
   /\ Bind(e) /\ NewLoopSize = e.n
 TDel(e) == MasterDel(e.pid) /\ Bind(e) /\ NewLoopSize = e.n
 TReset(e) == /\ live' = {} /\ childs' = <<>> /\ pipe' = <<>> /\ waits' = {} /\ armed' = {} /\ wst' = <<>>
-             /\ refCount' = InitProcs /\ loops' = << Loop(InitProcs) >> /\ nextPid' = 1 /\ reqs' = 0 /\ faults' = 0
+             /\ refCount' = InitProcs /\ loops' = << Loop(InitProcs) >> /\ nextPid' = 1 /\ reqs' = 0 /\ faults' = 0 /\ got' = 0
 TraceNext ==
   /\ l <= Len(Tr) /\ l' = l + 1
   /\ LET e == Tr[l] IN
